@@ -12,6 +12,7 @@ import GoMC.Props.C12
 #print axioms GoMC.Props.C12.C12_readFrom_fragInv
 #print axioms GoMC.Props.C12.C12_readFrom_extStable
 #print axioms GoMC.Props.C12.C12_reload_independent
+#print axioms GoMC.Props.C12.C12_containers_independent
 #print axioms GoMC.Props.C12.C12_with_data
 #print axioms GoMC.Props.C12.C12_with_data_single
 #print axioms GoMC.Props.C12.C12_with_data_direct
